@@ -322,6 +322,7 @@ def judge_observations(mod, verdict, results, stage_names=None):
     """Generic judge: every check value is compared with mod.THRESHOLDS[check]."""
     thr = mod.THRESHOLDS
     prop = mod.ID
+    findings = load_findings()
     for o in results["obs"]:
         verdict.evaluations += 1
         stage = o.get("_stage", "")
@@ -348,15 +349,19 @@ def judge_observations(mod, verdict, results, stage_names=None):
             verdict.counts[name] = verdict.counts.get(name, 0) + (o.get("counts") or {}).get(name, 1)
             ratio = (value / t) if (t > 0 and value is not None and not (isinstance(value, float) and math.isnan(value))) else (
                 float("inf") if is_bad(value, t) else 0.0)
-            w = verdict.worst.get(name)
-            if w is None or ratio > w["ratio"]:
-                verdict.worst[name] = {"ratio": ratio, "value": value, "threshold": t, "case": o.get("case"),
-                                       "stage": stage}
-            if is_bad(value, t):
+            bad = is_bad(value, t)
+            known = False
+            if bad:
                 suffix = (o.get("keys") or {}).get(name, "")
                 key = "%s/%s" % (prop, name) + ("/" + suffix if suffix else "")
+                known = match_finding(findings, prop, key) is not None
                 verdict.add_violation(key, "%s = %r exceeds %g" % (name, value, t),
                                       {"stage": stage, "case": o.get("case")}, o.get("params"))
+            # the "worst margin" statistic describes the observations that are NOT explained by a recorded finding
+            w = verdict.worst.get(name)
+            if not known and (w is None or ratio > w["ratio"]):
+                verdict.worst[name] = {"ratio": ratio, "value": value, "threshold": t, "case": o.get("case"),
+                                       "stage": stage}
     for c in results["crashes"]:
         verdict.evaluations += 1
         cls = ""
